@@ -1,6 +1,7 @@
 use crate::runner::Property;
 
 pub mod c01;
+pub mod c02;
 pub mod c03;
 pub mod c06;
 pub mod c07;
@@ -11,12 +12,13 @@ pub mod c19;
 pub mod c20;
 
 pub fn all_ids() -> Vec<&'static str> {
-    vec!["C01", "C03", "C06", "C07", "C08", "C09", "C15", "C19", "C20"]
+    vec!["C01", "C02", "C03", "C06", "C07", "C08", "C09", "C15", "C19", "C20"]
 }
 
 pub fn get(id: &str) -> Option<Property> {
     match id {
         "C01" => Some(c01::property()),
+        "C02" => Some(c02::property()),
         "C03" => Some(c03::property()),
         "C06" => Some(c06::property()),
         "C07" => Some(c07::property()),
